@@ -355,7 +355,7 @@ def replay_case(case):
         if got != p['des']:
             res['drift'].append({'what': 'get_context', 'pos': [p['l'], p['c']], 'cls': p['cls'],
                                  'design': p['des'], 'code': got})
-        key = p['cls'] if p['on'] else 'prefix'
+        key = p['cls']
         res['classes'][key] = res['classes'].get(key, 0) + 1
         if p['on']:
             events.append({'k': 'ctx', 'l': p['l'], 'c': p['c'], 'got': got})
@@ -523,8 +523,9 @@ def record_source(src, path, proj_root, mod, npos, nnames, seed):
                 continue
             events.append({'k': 'dchain', 'row': row, 'got': rr[1][0]})
             where.append('parent() chain of %s at %s' % (d.name, pos))
-            events.append(rr[1][1])
-            where.append('full_name of %s at %s' % (d.name, pos))
+            if mod[-1] != '__main__':     # a __main__.py has no unambiguous import path (jedi says __main__)
+                events.append(rr[1][1])
+                where.append('full_name of %s at %s' % (d.name, pos))
         elif d.type in ('param', 'statement'):
             others.append(d)
     rng.shuffle(others)
@@ -596,10 +597,11 @@ def report_rejects(ctx, rejects, traces, wheres, srcs, origin):
             desc = '%s answers row %s but the innermost enclosing body is row %s (%s position, shape %s)' % (
                 what, ev['got'], why[3], why[1], why[2])
         elif why[0] == 'parent-chain':
-            desc = '%s is %s, lexically enclosing scopes are %s' % (what, ev['got'], why[2])
+            desc = '%s is %s, but there are %s lexically enclosing scopes (innermost first: see table)' % (
+                what, ev['got'], why[2])
         elif why[0] == 'full-name':
-            desc = '%s is %r, module path + __qualname__ is %r' % (
-                what, jutil.dec(ev['got'][0]) if ev['got'] else None, jutil.dec(why[2]))
+            desc = '%s is %r, which is not module path + __qualname__ (%d characters) of row %d' % (
+                what, jutil.dec(ev['got'][0]) if ev['got'] else None, why[2], ev['row'])
         else:
             raise MachineryError('unknown reject %s' % (why,))
         ctx.count('rejected_events')
@@ -623,13 +625,16 @@ def run(ctx):
         bounds = dict(items=4, depth=3, scopes=4, extras=2, units=units)
     else:
         bounds = dict(items=5, depth=4, scopes=5, extras=2, units=units)
+    if os.environ.get('C18_SKIP_EXHAUSTIVE'):      # development knob (mutation runs): the exhaustive
+        bounds = dict(items=3, depth=2, scopes=3, extras=1, units=[4])
+        ctx.notes.append('C18_SKIP_EXHAUSTIVE set: exhaustive run reduced to %s' % bounds)
     cfg = write_cfg(ctx, 'mc.cfg', invs=['DesignMeetsReference'], **bounds)
     res = run_tlc('Nesting', cfg, workers=16, timeout=6000)
     ctx.add_tlc(res, 'Design|=Reference exhaustive %s' % bounds)
     if res.violated:
         raise MachineryError('Nesting.tla: %s violated (the design must reproduce the code; known deviations are '
                              'named in the spec):\n%s' % (res.violated, res.trace[-1:]))
-    if res.distinct < 5000:
+    if res.distinct < 5000 and not os.environ.get('C18_SKIP_EXHAUSTIVE'):
         raise MachineryError('vacuity: only %d states' % res.distinct)
     ctx.coverage['exhaustive'] = True
     ctx.log('exhaustive: %d distinct states, %.0fs' % (res.distinct, res.wall))
@@ -676,14 +681,15 @@ def run(ctx):
     report_rejects(ctx, rej, cex_traces, cex_wheres, cex_srcs, 'TLC counterexample of CtxStrict')
 
     # ---- 2. emitted cases -> replay (spec -> code): a BFS slice of small programs + simulation walks
-    mod = 97 if quick else (41 if scale < 1 else 7)
-    eb = dict(items=4, depth=3, scopes=4, extras=2, units=units)
+    mod = 5 if quick else (17 if scale < 1 else 7)
+    eb = dict(items=3, depth=2, scopes=3, extras=1, units=units) if quick else \
+        dict(items=4, depth=3, scopes=4, extras=2, units=units)
     cfg = write_cfg(ctx, 'emit.cfg', mod=mod, rem=ctx.seed % mod, invs=[], emit=True, **eb)
     res = run_tlc('Nesting', cfg, workers=1, timeout=6000)
     ctx.add_tlc(res, 'case emission slice %d mod %d %s' % (ctx.seed % mod, mod, eb))
     cs = cases(res)
     sb = dict(items=7, depth=4, scopes=6, extras=3, units=units)
-    nsim = 150 if quick else (400 if scale < 1 else 4000)
+    nsim = 60 if quick else (400 if scale < 1 else 4000)
     cfg = write_cfg(ctx, 'sim.cfg', mod=1, rem=0, invs=['DesignMeetsReference'], emit=True, **sb)
     res = run_tlc('Nesting', cfg, workers=1, timeout=6000, simulate='num=%d' % nsim, depth=8, seed=ctx.seed)
     ctx.add_tlc(res, 'simulation walks with emission %s' % sb)
@@ -696,7 +702,7 @@ def run(ctx):
         if k not in seen:
             seen.add(k)
             cs.append(c)
-    if len(cs) < 500:
+    if len(cs) < 300:
         raise MachineryError('too few cases emitted: %d' % len(cs))
     ctx.log('replaying %d TLC cases (%d positions)' % (len(cs), sum(len(c['pos']) for c in cs)))
     results = jutil.pmap(replay_case, cs)
@@ -737,9 +743,9 @@ def run(ctx):
     report_rejects(ctx, rejects, traces, wheres, srcs, 'rendered TLC case')
 
     # ---- 3. corpus (code -> spec)
-    files = jutil.corpus_files(limit=40 if quick else (60 if scale < 1 else None), rng=ctx.rng)
+    files = jutil.corpus_files(limit=30 if quick else (60 if scale < 1 else None), rng=ctx.rng)
     ctx.log('corpus: %d files' % len(files))
-    recs = jutil.pmap(record_file, [(f, 250 if quick else 0, 150 if quick else 1500, ctx.seed + i)
+    recs = jutil.pmap(record_file, [(f, 150 if quick else 0, 100 if quick else 1500, ctx.seed + i)
                                     for i, f in enumerate(files)], chunksize=1)
     jutil.check_worker_errors(recs)
     ctraces, cwheres, csrcs = [], [], []
@@ -794,6 +800,7 @@ def run(ctx):
         'header positions (first decorator .. colon) may answer the enclosing scope or the definition itself',
         'positions on whitespace / comments / blank lines are predicted by the Design (drift) but not judged',
         'full_name judged only for definitions all of whose enclosing scopes are classes',
+        'corpus: full_name of definitions in __main__.py files is not judged (no unambiguous import path)',
         'corpus: identifier tokens of tokenize; files whose def/async layout the table builder cannot '
         'read are skipped and counted']
     return None
